@@ -174,3 +174,26 @@ Section Recipe.
        r_inline := sr_inline r;
        r_data := DefaultScaling |}.
 End Recipe.
+
+(* the frame types are inferred everywhere *)
+Arguments si_frame {IF} _.           Arguments si_quantity {IF} _.
+Arguments ig_frame {IF} _.           Arguments ig_quantity {IF} _.
+Arguments sc_frame {CF} _.           Arguments sc_quantity {CF} _.
+Arguments ck_frame {CF} _.           Arguments ck_quantity {CF} _.
+Arguments Build_s_ingredient {IF} _ _.   Arguments Build_ingredient {IF} _ _.
+Arguments Build_s_cookware {CF} _ _.     Arguments Build_cookware {CF} _ _.
+Arguments sr_frame {IF CF MF} _.     Arguments sr_ingredients {IF CF MF} _.
+Arguments sr_cookware {IF CF MF} _.  Arguments sr_timers {IF CF MF} _.
+Arguments sr_inline {IF CF MF} _.    Arguments sr_servings {IF CF MF} _.
+Arguments r_frame {IF CF MF} _.      Arguments r_ingredients {IF CF MF} _.
+Arguments r_cookware {IF CF MF} _.   Arguments r_timers {IF CF MF} _.
+Arguments r_inline {IF CF MF} _.     Arguments r_data {IF CF MF} _.
+Arguments Build_s_recipe {IF CF MF} _ _ _ _ _ _.
+Arguments Build_recipe {IF CF MF} _ _ _ _ _ _.
+Arguments ingredient_scale {IF} _ _.     Arguments ingredient_default {IF} _.
+Arguments cookware_scale {CF} _ _.       Arguments cookware_default {CF} _.
+Arguments ingredient_scale_fit {IF} _ _ _ _.
+Arguments scale {IF CF MF} _ _ _ _.
+Arguments servings_base {IF CF MF} _.
+Arguments scale_to_servings {IF CF MF} _ _ _ _.
+Arguments default_scale {IF CF MF} _.
